@@ -28,8 +28,9 @@ PROPERTY = {
               '(quantified loop invariant over the mutable element field); DocTest.__init__ stores line, index and text',
               'parse_google_docstr_examples: a block labelled at offset o of the docstring becomes a doctest at line lineno + o + 1'],
         'B': ['generated modules (functions, classes, methods, decorators, docstrings opened with r / R / u prefixes): every collected doctest is placed on the file line that holds its first statement (bounded/c07_collect.py: the docstring start line found by static analysis)',
-              'the real freeform / google parsers on random docstrings: every (doctest line + part offset) points at the docstring line that holds the first source line of that part, and failed_lineno() at the statement that raised -- a plain raise, a line inside a multi-line statement, the doctest line that calls a failing helper, the first line of a mismatching want (eval and single mode), a raise followed by a finally block (bounded/c08_lines.py)'],
-        'T': ['tb_lineno / end_lineno produced by CPython',
+              'the real freeform / google parsers on random docstrings: every (doctest line + part offset) points at the docstring line that holds the first source line of that part, and failed_lineno() at the statement that raised -- a plain raise, a line inside a multi-line statement, the doctest line that calls a failing helper, the first line of a mismatching want (eval and single mode), a raise followed by a finally block (bounded/c08_lines.py)',
+              'the same parsers on docstrings whose first line holds a character that str.splitlines() breaks at but a source file does not (form feed, vertical tab, FS/GS/RS, NEL, U+2028, U+2029 -- written as an escape they sit inside ONE file line): line numbers still point at their text (bounded/c08_lines.py; this entry found F14)'],
+        'T': ['tb_lineno / end_lineno produced by CPython', 'parser._source_lines (re.split at \\n, \\r\\n, \\r): the lines as the source file has them -- assumed contract, exercised by the bounded line oracle',
               "split_google_docblocks' offsets and the docstring start line found by static analysis are assumed"],
     },
     'explanation': 'C08: offset arithmetic of the three failure kinds, and of the three places that assign line numbers while parsing.',
